@@ -13,6 +13,7 @@ from scipy.integrate import solve_ivp
 
 from harness.bootstrap import load_chi, VERIF
 from harness.core import Family
+from harness import forms as FM
 from harness.oracle import pk
 
 chi = load_chi()
@@ -155,6 +156,33 @@ def generated_case(ctx, rng, idx):
                        'times': times, 'parameters': vals,
                        'model': am.describe()}, feats)
         return
+    # ---- the same call with the numbers in another container / dtype
+    form = FM.pick(rng)
+    xf, tf = np.array(x), times
+    if form in ('int64', 'int32', 'pyint'):
+        xf = FM.intify(x)
+        tf = np.unique(np.round(times * 2))
+    xv, tv = FM.variant(xf, form), FM.variant(tf, form)
+    if xv is not None and tv is not None:
+        try:
+            yv = np.asarray(m.simulate(xv, tv))
+        except Exception as e:      # noqa
+            ctx.violation_exc('simulate_raises', e,
+                              {'model': am.describe(), 'outputs': outs,
+                               'times': tf, 'input_form': form},
+                              dict(feats, input_form=form))
+            return
+        refv = np.real(am.solve(dict(zip(names, xf)), tf, outs))
+        ctx.count('input_forms_compared')
+        scv = np.max(np.abs(refv)) + 1e-3
+        if yv.shape != refv.shape or not ctx.close(yv, refv, rtol=1e-6,
+                                                   scale=scv):
+            ctx.violation('solution_of_the_ivp', 'input_form:' + form,
+                          {'chi': yv, 'reference': refv, 'outputs': outs,
+                           'times': tf, 'parameters': xf,
+                           'model': am.describe()},
+                          dict(feats, input_form=form))
+            return
     # ---- sensitivities (full model)
     obj = m
     free = np.ones(len(names), dtype=bool)
